@@ -65,10 +65,11 @@ def WriteOk (safes : List (Option Int)) (w : WriteRec) : Prop :=
   (w.active = false → SafeVals safes w.vals []) ∧
   (w.active = true → w.paused = true → SafeVals safes w.vals w.touchedRun)
 
-/-- The C08 invariant of the engine fields. `rphase = 2` ⇔ between the two halves of a Restart. -/
+/-- The C08 invariant of the engine fields. `restartGap` (history): the run was ended by the first half of a
+    Restart and no run has started since, i.e. the engine is between the two halves of a Restart. -/
 structure Safe8 (cfg : Cfg) (a : A) : Prop where
   /-- no run active (and not inside a Restart): the hardware image is safe -/
-  hw : a.core.started = false → a.rphase ≠ 2 → SafeVals cfg.safes a.core.hw []
+  hw : a.core.started = false → a.core.restartGap = false → SafeVals cfg.safes a.core.hw []
   /-- paused run: the output *tags* are safe except where the user commanded them during this pause -/
   tags : a.core.started = true → a.core.paused = true → SafeVals cfg.safes a.core.outs a.core.touchedRun
   /-- every write so far was acceptable -/
@@ -118,7 +119,35 @@ theorem safe8_step (cfg : Cfg) (hc : Repaired cfg) (a : A) (act : Act) (hA : C06
     have hs' : a.core.started = false := hs
     exact absurd (hstop hs') hen.1
   case restartMid =>
-    exact ⟨fun _ hr => absurd rfl hr, fun hs => by simp [Act.apply, Core.restartMid] at hs, h3⟩
+    exact ⟨fun _ hr => by simp [Act.apply, Core.restartMid] at hr,
+      fun hs => by simp [Act.apply, Core.restartMid] at hs, h3⟩
+  case restartMidC fx =>
+    refine ⟨fun _ hr => by simp [Act.apply, Core.restartMid] at hr,
+      fun hs => by simp [Act.apply, Core.restartMid] at hs, fun w hw => h3 w ?_⟩
+    simpa [Act.apply, Core.restartMid] using hw
+  case stopFinishC fx d =>
+    refine ⟨fun _ hr => ?_, fun hs => ?_, ?_⟩
+    rotate_left
+    · have := stopFinish_started cfg (applyFx fx a.core)
+      simp only [Act.apply] at hs
+      rw [this] at hs; cases hs
+    rotate_left
+    · simp only [Act.apply, Core.stopFinish, Core.writeImage, applyFx_started] at hr ⊢
+      by_cases hs : a.core.started = true
+      · simp only [hs, if_true]
+        exact safeVals_applySafe _ _
+      · simp only [hs, Bool.false_eq_true, if_false] at hr ⊢
+        simp only [applyFx_hw]
+        exact h1 (by simpa using hs) (by simpa using hr)
+    · intro w hw
+      simp only [Act.apply, Core.stopFinish, Core.writeImage, applyFx_started] at hw
+      by_cases hs : a.core.started = true
+      · simp only [hs, if_true, List.mem_append, List.mem_singleton, applyFx_writes] at hw
+        rcases hw with hw | hw
+        · exact h3 w hw
+        · refine ⟨fun h => ?_, fun _ h => ?_⟩ <;> simp [hw] at h
+      · simp only [hs, Bool.false_eq_true, if_false, applyFx_writes] at hw
+        exact h3 w hw
   case dropRestart =>
     refine ⟨fun hs _ => ?_, h2, h3⟩
     have hs' : a.core.started = false := hs
@@ -134,7 +163,8 @@ theorem safe8_step (cfg : Cfg) (hc : Repaired cfg) (a : A) (act : Act) (hA : C06
       by_cases hs : a.core.started = true
       · simp only [hs, if_true]
         exact safeVals_applySafe _ _
-      · simp only [hs, Bool.false_eq_true, if_false]
+      · simp only [Act.apply, Core.stopFinish, Core.writeImage, hs, Bool.false_eq_true, if_false] at hr
+        simp only [hs, Bool.false_eq_true, if_false]
         exact h1 (by simpa using hs) hr
     · intro w hw
       simp only [Act.apply, Core.stopFinish, Core.writeImage] at hw
@@ -238,11 +268,12 @@ theorem reachable_safe (cfg : Cfg) (hc : Repaired cfg) (outs : List Int) (ops : 
 /-- **C08, clause 1 for "no run active".** After every operation of every schedule: if no run is active
     (from engine start until the first run starts; after every Stop) the last value written to every output
     register with a safe value is that safe value. (Excluded: the single tick between the two halves of a
-    Restart, `rphase = 2`, which C08 does not list.) -/
+    Restart, which C08 does not list: `restartGap` = the run was ended by the first half of a Restart — which
+    writes nothing — and no run has started since.) -/
 theorem safe_when_no_run (cfg : Cfg) (hc : Repaired cfg) (outs : List Int) (ops : List OpO)
     (hq : QuietFrom cfg (initO cfg outs) ops) :
     let s := (runO cfg (initO cfg outs) ops).base
-    s.core.started = false → rphaseOf s.reg ≠ 2 → SafeVals cfg.safes s.core.hw [] :=
+    s.core.started = false → s.core.restartGap = false → SafeVals cfg.safes s.core.hw [] :=
   (reachable_safe cfg hc outs ops hq).2.hw
 
 /-- **C08, clause 2 and the pause clause at the write boundary.** Every `write_batch` ever made: if no run
@@ -270,6 +301,13 @@ theorem inactive_write_is_first (cfg : Cfg) (a : A) (act : Act) :
     · simp only [List.mem_append, List.mem_singleton] at hw
       exact hw.imp id (fun h => by rw [h])
     · exact Or.inl hw
+  case stopFinishC fx d =>
+    simp only [Act.apply, Core.stopFinish, Core.writeImage] at hw
+    split at hw
+    · simp only [List.mem_append, List.mem_singleton, applyFx_writes] at hw
+      exact hw.imp id (fun h => by rw [h])
+    · exact Or.inl (by simpa using hw)
+  case restartMidC fx => exact Or.inl (by simpa [Act.apply, Core.restartMid] using hw)
   case error =>
     have : (Act.apply cfg Act.error a).core.writes = a.core.writes := by
       simp only [Act.apply, Core.setError]; split
